@@ -87,8 +87,10 @@ def case(args):
         sc.plant(sp.files)
         impl = t3.run_impl(sc, sp, timeout=60)
         problems = failure_monitor(sp, model, impl)
+        rstats = {}
+        problems += t3.replay_problems(sp, model, impl, ("tasks",), stats=rstats)
         nf = [t for t in model["tasks"] if t["status"] in ("fail", "invalid")]
-        return {"spec": sp.text(), "bufsize": sp.bufsize, "problems": problems, "ntasks": len(model["tasks"]), "rc": impl["rc"], "stderr": impl["stderr"][-300:],
+        return {"replay": rstats, "spec": sp.text(), "bufsize": sp.bufsize, "problems": problems, "ntasks": len(model["tasks"]), "rc": impl["rc"], "stderr": impl["stderr"][-300:],
                 "yield": None, "wall": impl["wall"], "mode": "formation" if mode >= 4 else next((q.fail for q in procs if q.fail != "none"), "?"),
                 "gofunc": any(q.gofunc for q in procs), "status": nf[0]["status"] if nf else "?"}
     finally:
